@@ -385,8 +385,21 @@ func c19Inheritance(p *Prog, r *Report) {
 		if !f.OK() {
 			continue
 		}
+		// the new context: a composite literal, or whatever OpenContext returns (a value built
+		// by a private constructor and completed here)
+		bases := map[string]bool{"$complit": true}
+		for _, e := range f.EvOwn("return", "") {
+			if len(e.Args) == 2 && e.Args[0] != "nil" {
+				bases[e.Args[0]] = true
+			}
+		}
 		for _, fld := range t.fields {
-			st := f.Ev("store", "$complit."+fld)
+			var st Sel
+			for _, e := range f.Ev("store", "*."+fld) {
+				if bases[strings.TrimSuffix(e.What, "."+fld)] {
+					st = append(st, e)
+				}
+			}
 			ok := len(st) == 1 && st[0].Args[0] == t.def+"."+fld && len(st[0].Held) > 0
 			r.Check(ok, R, t.rel+"/OpenContext/"+fld, st.Pos(p), "new context's "+fld+" = default context's "+fld+" (under the lock)", fmt.Sprintf("OpenContext does not inherit %s from the default context's %s under the lock: %s", fld, fld, argsOf(st)))
 		}
